@@ -19,6 +19,7 @@ type SplineCase struct {
 const (
 	splineTol    = 0.05 // the property's tolerance: the fitter's own vertex tolerance
 	k2VertexDist = 0.04 // known finding K2: excursions that leave and re-enter within this distance of corridor vertices
+	k2Hug        = 1e-5 // ... or from which the curve stays within this distance of a wall up to such a place
 )
 
 var propC20 = register(&Property{
@@ -66,6 +67,32 @@ func linfDistToCorridor(p P, rs []Rect) float64 {
 		dy := math.Max(0, math.Max(rc.TL.Y-p.Y, p.Y-rc.BR.Y))
 		best = math.Min(best, math.Max(dx, dy))
 	}
+	return best
+}
+
+// distToWalls: Euclidean distance from p to the boundary of the union of the corridor's rectangles (left and right sides,
+// the horizontal steps between consecutive rectangles, top of the first and bottom of the last)
+func distToWalls(p P, rs []Rect) float64 {
+	best := math.Inf(1)
+	seg := func(a, b P) {
+		dx, dy := b.X-a.X, b.Y-a.Y
+		l2 := dx*dx + dy*dy
+		t := 0.0
+		if l2 > 0 {
+			t = math.Max(0, math.Min(1, ((p.X-a.X)*dx+(p.Y-a.Y)*dy)/l2))
+		}
+		best = math.Min(best, math.Hypot(p.X-(a.X+t*dx), p.Y-(a.Y+t*dy)))
+	}
+	for i, r := range rs {
+		seg(r.TL, P{r.TL.X, r.BR.Y})
+		seg(P{r.BR.X, r.TL.Y}, r.BR)
+		if i > 0 {
+			seg(P{rs[i-1].TL.X, r.TL.Y}, r.TL)
+			seg(rs[i-1].BR, P{r.BR.X, r.TL.Y})
+		}
+	}
+	seg(rs[0].TL, P{rs[0].BR.X, rs[0].TL.Y})
+	seg(P{rs[len(rs)-1].TL.X, rs[len(rs)-1].BR.Y}, rs[len(rs)-1].BR)
 	return best
 }
 
@@ -293,10 +320,31 @@ func checkC20A(sc *SplineCase) (o *Outcome) {
 			// "at the piece's own end" is judged in space, not in the parameter: a curve that runs just outside a wall
 			// towards an end point ON that wall crosses the 1e-9 threshold at a parameter that depends on how flat it
 			// approaches (a first version used t < 1e-4 / t > 1 - 1e-4 and raised two alarms in 8 M cases, which were K2)
-			lp, rp := cp.curvep(leave), cp.curvep(reenter)
-			okLeave := nearVertex(lp) || math.Hypot(lp.X-cp.p0.X, lp.Y-cp.p0.Y) <= k2VertexDist
-			okReenter := nearVertex(rp) || math.Hypot(rp.X-cp.p3.X, rp.Y-cp.p3.Y) <= k2VertexDist
-			if !okLeave || !okReenter {
+			// ... and it is judged along the whole stretch on which the curve HUGS the wall (within k2Hug of it) next to
+			// the located crossing: a curve that ends tangentially on a wall (or runs along a wall that is offset by a few
+			// 1e-6 from the piece's end point) passes the 1e-9 threshold up to 0.08 away from the end point although the
+			// wall is crossed AT the end point (three alarms in 12 M cases of the thorough tier, all K2: the chord through
+			// two nearly collinear reflex vertices, and the corner cut next to a 0.097 wide step)
+			forgiven := func(q P, end P) bool {
+				return nearVertex(q) || math.Hypot(q.X-end.X, q.Y-end.Y) <= k2VertexDist
+			}
+			hugs := func(t0, dir float64, end P) bool {
+				const h = 1.0 / (8 * N)
+				for t := t0; ; {
+					q := cp.curvep(t)
+					if forgiven(q, end) {
+						return true
+					}
+					if t <= 0 || t >= 1 {
+						return false
+					}
+					t = math.Min(1, math.Max(0, t+dir*h))
+					if distToWalls(cp.curvep(t), rs) > k2Hug {
+						return false
+					}
+				}
+			}
+			if !hugs(leave, -1, cp.p0) || !hugs(reenter, +1, cp.p3) {
 				k2 = false
 			}
 		}
